@@ -19,7 +19,7 @@ const prop = "C13"
 const kfShrink = "KF-C13-01"
 
 type Step struct {
-	K    string   `json:"k"` // resize write
+	K    string   `json:"k"` // resize write attr delattr link
 	Dims []uint64 `json:"dims,omitempty"`
 	Seed int      `json:"seed,omitempty"`
 }
@@ -59,8 +59,20 @@ func gen(t *rapid.T) Case {
 	n := rapid.IntRange(1, 12).Draw(t, "nsteps")
 	cur := append([]uint64{}, c.D.Dims...)
 	for i := 0; i < n; i++ {
-		if rapid.IntRange(0, 2).Draw(t, "isWrite") == 0 {
+		switch rapid.IntRange(0, 8).Draw(t, "isWrite") {
+		case 0, 1, 2:
 			c.Steps = append(c.Steps, Step{K: "write", Seed: rapid.IntRange(0, 9999).Draw(t, "seed")})
+			continue
+		case 3:
+			// other operations on the same object between resizes and writes (they rewrite its header)
+			c.Steps = append(c.Steps, Step{K: "attr", Seed: rapid.IntRange(0, 5).Draw(t, "aname")})
+			continue
+		case 4:
+			if rapid.Bool().Draw(t, "linkOrDel") {
+				c.Steps = append(c.Steps, Step{K: "link"})
+			} else {
+				c.Steps = append(c.Steps, Step{K: "delattr", Seed: rapid.IntRange(0, 5).Draw(t, "aname")})
+			}
 			continue
 		}
 		dims := make([]uint64, rank)
@@ -226,6 +238,12 @@ func run(c Case) vt.Verdict {
 					}
 				}
 			}
+		case "attr":
+			st = ex.Apply(hist.Op{K: "attr", Path: "/r", Name: fmt.Sprintf("a%d", s.Seed), A: &hist.AttrVal{Kind: []string{"i32", "str", "f64"}[(s.Seed+i)%3], N: 9, Seed: s.Seed + i}})
+		case "delattr":
+			st = ex.Apply(hist.Op{K: "delattr", Path: "/r", Name: fmt.Sprintf("a%d", s.Seed)})
+		case "link":
+			st = ex.Apply(hist.Op{K: "hard", Path: fmt.Sprintf("/link%d", i), Target: "/r"})
 		default:
 			return vt.Skipped("unknown step")
 		}
@@ -237,9 +255,9 @@ func run(c Case) vt.Verdict {
 		return vt.Bad("Close: %v", err)
 	}
 	f := obs.Read(file, obs.Options{SelSeeds: []uint64{11, 22, 33, 44}})
-	ps := hist.Compare(ex.M, f, hist.Opts{})
+	ps := hist.Compare(ex.M, f, hist.Opts{RefCount: true})
 	for _, p := range ps {
-		if staleRisk && p.Path == "/r" && staleExplains(p, ex.M.Resolve("/r"), f.Datasets["/r"]) {
+		if r := ex.M.Resolve("/r"); staleRisk && r != nil && ex.M.Resolve(p.Path) == r && staleExplains(p, r, f.Datasets[p.Path]) {
 			return vt.KnownOr(kfShrink, "%s", p)
 		}
 		return vt.Bad("%d problem(s) after reopen, first: %s (spec %+v)", len(ps), p, c.D)
